@@ -112,6 +112,8 @@ pub struct StateMachine<'a> {
     pub handled_diff_header_header_line_file_pair: Option<(String, String)>,
     pub blame_key_colors: HashMap<String, String>,
     pub minus_line_counter: AmbiguousDiffMinusCounter,
+    // The HunkHeader state and the '-Subproject commit' line (line, raw_line) that it was left for
+    pub pending_submodule_short_line: Option<(State, String, String)>,
 }
 
 pub fn delta<I>(lines: ByteLines<I>, writer: &mut dyn Write, config: &Config) -> std::io::Result<()>
@@ -140,6 +142,7 @@ impl<'a> StateMachine<'a> {
             config,
             blame_key_colors: HashMap::new(),
             minus_line_counter: AmbiguousDiffMinusCounter::not_needed(),
+            pending_submodule_short_line: None,
         }
     }
 
@@ -159,6 +162,12 @@ impl<'a> StateMachine<'a> {
                 if self.source == Source::DiffUnified {
                     self.minus_line_counter = AmbiguousDiffMinusCounter::prepare_to_count();
                 }
+            }
+
+            if matches!(self.state, State::SubmoduleShort(_))
+                && !self.line.starts_with("+Subproject commit ")
+            {
+                self.emit_unpaired_submodule_short_line()?;
             }
 
             // A hunk header is written when the first line of its hunk arrives. If what arrives
@@ -200,6 +209,7 @@ impl<'a> StateMachine<'a> {
             self.verif_trace_line("line");
         }
 
+        self.emit_unpaired_submodule_short_line()?;
         self.emit_pending_hunk_header()?;
         self.handle_pending_line_with_diff_name()?;
         self.painter.paint_buffered_minus_and_plus_lines();
